@@ -88,6 +88,8 @@ class Counter:
         self.square = bool(fill.get("square", False))
         self.pattern = fill.get("pattern", "")
         self.floaty = bool(fill.get("float", False))
+        self.zero_every = int(fill.get("zero_every", 0))   # every n-th block is stored but identically zero
+        self.nblocks = 0
         self.dtype = dtype
         self.k = 0
 
@@ -125,6 +127,11 @@ class Counter:
         return a.astype(self.dtype)
 
     def __call__(self, shape):
+        self.nblocks += 1
+        if self.zero_every and self.nblocks % self.zero_every == 0:
+            for _ in range(int(np.prod(shape, dtype=int))):
+                self.value()
+            return np.zeros(shape, dtype=self.dtype)
         if self.pattern and len(shape) == 2:
             return self.monomial(shape, self.pattern)
         size = int(np.prod(shape, dtype=int))
